@@ -22,6 +22,7 @@ type c18Params struct {
 	Script  bool   `json:"script"`          // the server's behaviour per response is enumerated
 	Delay   bool   `json:"delay_bounded"`
 	Follow  bool   `json:"follow_up"` // every caller sends a second request once its first call has returned
+	Wrap    bool   `json:"request_id_wrapped"` // the request id counter wraps around onto the id of a pending request
 }
 
 type c18Call struct {
@@ -166,8 +167,63 @@ func c18Body(p c18Params) func() {
 	}
 }
 
+// c18WrapBody: the 32 bit request id counter has wrapped around while an old request (a parked Publish, say)
+// is still waiting: the next request is handed the id of the pending one. Caller 0 holds id X, the counter is
+// put back to X-1, caller 1 sends; the server answers the old request first, then the new one.
+func c18WrapBody(p c18Params) func() {
+	return func() {
+		obs := &c18Obs{calls: make([]c18Call, 2)}
+		c18obs = obs
+		bg := context.Background()
+		var pending []*uasc.MessageBody
+		srv := &echoServer{cfg: noneCfg(3600000, 0)}
+		srv.respond = func(s *echoServer, ctx context.Context, msg *uasc.MessageBody) {
+			pending = append(pending, msg)
+			if len(pending) < 2 {
+				return
+			}
+			for _, m := range pending { // oldest first
+				s.answer(ctx, m)
+			}
+			pending = nil
+		}
+		ccfg := noneCfg(3600000, 2*time.Second)
+		ccfg.RequestIDSeed = p.Seed
+		sc, _ := pair(bg, srv, ccfg)
+		vrt.Settle()
+		vrt.BeginWindow()
+		var wg sync.WaitGroup
+		call := func(i int) {
+			defer wg.Done()
+			rq := readReq(0)
+			rq.NodesToRead[0].NodeID = ua.NewNumericNodeID(0, uint32(1000+i))
+			c := &obs.calls[i]
+			c.err = sc.SendRequest(bg, rq, nil, func(v ua.Response) error {
+				c.calls++
+				c.got = echoedNode(v)
+				return nil
+			})
+		}
+		wg.Add(2)
+		sc.VerifE2SetRequestID(p.Seed)
+		go call(0)
+		time.Sleep(100 * time.Millisecond) // the old request is on the wire and parked at the server
+		sc.VerifE2SetRequestID(p.Seed)     // ... and 2^32 requests later the counter is back where it was
+		go call(1)
+		wg.Wait()
+		vrt.EndWindow()
+		time.Sleep(time.Second)
+		obs.script = "wrapped-onto-a-pending-id"
+		obs.handlers = sc.VerifE2Handlers()
+		obs.done = true
+	}
+}
+
 func c18Check(p c18Params) func(x *vrt.Exec) (string, string, string) {
 	tag := fmt.Sprintf("c18/callers=%d/wrap=%v/script=%v", p.Callers, p.Seed > 1<<31, p.Script)
+	if p.Wrap {
+		tag = "c18/request-id-wrapped-onto-a-pending-request"
+	}
 	return func(x *vrt.Exec) (string, string, string) {
 		if out, sig, detail, failed := fail(x); failed {
 			if sig != "" {
@@ -225,6 +281,12 @@ func c18Scenarios(thorough bool) []driver.Scenario {
 			Body: c18Body(p), Check: c18Check(p), Bound: bound, NeedsConflict: true,
 		})
 	}
+	wrap := c18Params{Callers: 2, Seed: 41, Wrap: true}
+	out = append(out, driver.Scenario{
+		Name:   "c18/request-id-wrapped-onto-a-pending-request",
+		Params: wrap, Cfg: vrt.Config{Horizon: int64(10 * time.Minute), SelectDeviations: true},
+		Body: c18WrapBody(wrap), Check: c18Check(wrap), Bound: 1,
+	})
 	if thorough {
 		add(c18Params{Callers: 2, Seed: 1, Script: true}, 1)
 		add(c18Params{Callers: 1, Seed: 1, Script: true, Follow: true}, 2)
